@@ -103,7 +103,7 @@ def case_batch(batch, wctx):
 
 def run(ctx):
     quick = ctx.tier == "quick"
-    n = G.QUICK_N.get(ctx.prop, 400) if quick else 15000
+    n = G.QUICK_N.get(ctx.prop, 400) if quick else 5000
     per = 20 if quick else 300
     ctx.rule = ("C22-style definitions (1-4 fields) x C23 strings in values, file names and list append_args, plus "
                 "'' arguments; cmdline and executed argv taken from the same task instance; non-trivial = the "
